@@ -137,9 +137,8 @@ def check(col: Collector, tier: str):
         extra = set()
         ad = c.methods.get("add_to_replacement_dict")
         if ad is not None:
-            for n in ast.walk(ad.node):
-                if isinstance(n, ast.Dict):
-                    extra |= {const_str(k) for k in n.keys if const_str(k)}
+            from sa.props._tr import const_key_entries
+            extra |= {k for k, _, _ in const_key_entries(ad.node)}
         provided = provided_common | extra
         upd = any(isinstance(cc, ast.Call) and call_name(cc) == "update" and src(cc.func.value) == "info" and "add_to_replacement_dict" in src(cc.args[0])
                   for cc in ast.walk(wf.node))
